@@ -23,7 +23,7 @@ def run(repo, tier) -> Result:
 
     check_epoch("C12", res, repo)
     check_collapse("C12", res, repo, want=("R-FILLPATH",))
-    res.rule("R-FILL", floor=10)
+    res.rule("R-FILL", floor=7)
     # "the real buckets are identical to those produced without filling": every timeframe collapses the raw base candles, never another
     # manager's (filled) candles
     from ..ownership import check_raw_copies
